@@ -661,6 +661,96 @@ fn check_pipeline(ops: &[Op], bytes: &[u8], direct: &[Op], obs: &mut Obs, ctx: &
     }
 }
 
+/// Arbitrary bytes through the reader: totality, framing against the independent model, the iterator and step APIs
+/// agreeing, and whatever was decoded round-tripping again. Returns the decoded operations when they did.
+fn check_bytes(bytes: &[u8], how: &str, obs: &mut Obs) -> Option<Vec<Op>> {
+    let ctx = json!({"phase": "bytes", "how": how});
+    let mut rt_ok = false;
+    obs.add("bytes_total_fed", bytes.len() as u64);
+    let Some(d) = decode(bytes, obs, &ctx) else {
+        return None;
+    };
+    obs.count(match &d.end {
+        Ok(()) => "bytes_end_ok",
+        Err(InvalidDviData::Truncated(_)) => "bytes_end_truncated",
+        Err(InvalidDviData::InvalidOpCode(_)) => "bytes_end_invalid_opcode",
+    });
+    obs.add("bytes_ops_decoded", d.ops.len() as u64);
+    if !check_framing(bytes, &d, obs, &ctx) {
+        return None;
+    }
+    // Display of the documented errors must work too
+    if let Err(e) = &d.end {
+        if let Err(p) = catch(|| format!("{e}")) {
+            obs.repo_panic(&p, json!({"what": "Display of InvalidDviData panicked"}));
+        }
+    }
+    // whatever the reader returned is a sequence of operations: it must round-trip, provided
+    // its strings are inside the quantifier (lossy UTF-8 decoding can grow them past 255 bytes)
+    if !d.ops.is_empty() {
+        if strings_fit(&d.ops) {
+            let r = check_round_trip(&d.ops, obs, &ctx);
+            if r.ok {
+                obs.count("bytes_decoded_ops_round_tripped_again");
+                rt_ok = true;
+            }
+        } else {
+            obs.skip("decoded-string-longer-than-255-bytes");
+        }
+    }
+    if !d.ops.is_empty() || d.end.is_err() {
+        obs.nontrivial(bytes);
+    }
+    if obs.wants_sample() {
+        obs.sample(json!({"how": how, "bytes": show_bytes(bytes), "decoded": show_ops(&d.ops[..d.ops.len().min(12)]),
+                          "n_decoded": d.ops.len(), "end": format!("{:?}", d.end), "unconsumed": d.residual}));
+    }
+    if rt_ok {
+        Some(d.ops)
+    } else {
+        None
+    }
+}
+
+/// Entry point of the libFuzzer target `c16_dvi_bytes` (harness/vfuzz): the bytes phase's oracle on a fuzzer-chosen
+/// input, then - when the decoded operations round-trip - the VarRemover oracle and the normalize pipeline on them.
+pub fn fuzz_one(data: &[u8], obs: &mut Obs) {
+    let Some(ops) = check_bytes(data, "fuzz", obs) else {
+        return;
+    };
+    let ctx = json!({"phase": "fuzz"});
+    if let Some(direct) = check_var_remover(&ops, obs, &ctx) {
+        if let Ok(bytes) = catch(|| dvi::serialize(ops.clone())) {
+            check_pipeline(&ops, &bytes, &direct, obs, &ctx);
+        }
+    }
+}
+
+/// Seed corpus for the libFuzzer target: every boundary operation alone, and generated sequences of the three profiles.
+pub fn fuzz_seeds() -> vcore::fuzzglue::Seeds {
+    let mut inputs = vec![];
+    for op in boundary_table().iter() {
+        if let Ok(b) = catch(|| dvi::serialize(vec![op.clone()])) {
+            inputs.push(b);
+        }
+    }
+    for k in 0..300u64 {
+        let mut rng = Rng::new(0xC16 + k);
+        let profile = match k % 3 {
+            0 => Profile::Document,
+            1 => Profile::Messy,
+            _ => Profile::Motion,
+        };
+        let (ops, _, _) = gen::gen_sequence(&mut rng, profile, 60);
+        if let Ok(b) = catch(|| dvi::serialize(ops)) {
+            if b.len() <= 4096 {
+                inputs.push(b);
+            }
+        }
+    }
+    vcore::fuzzglue::Seeds { inputs, dictionary: vec![] }
+}
+
 fn boundary_table() -> &'static Vec<Op> {
     static T: OnceLock<Vec<Op>> = OnceLock::new();
     T.get_or_init(gen::boundary_ops)
@@ -839,45 +929,7 @@ impl M {
             let sb = catch(|| dvi::serialize(b)).unwrap_or_default();
             (gen::mutate(rng, &sa, &sb), "mutated-serialisation")
         };
-        let ctx = json!({"phase": "bytes", "how": how});
-        obs.add("bytes_total_fed", bytes.len() as u64);
-        let Some(d) = decode(&bytes, obs, &ctx) else {
-            return;
-        };
-        obs.count(match &d.end {
-            Ok(()) => "bytes_end_ok",
-            Err(InvalidDviData::Truncated(_)) => "bytes_end_truncated",
-            Err(InvalidDviData::InvalidOpCode(_)) => "bytes_end_invalid_opcode",
-        });
-        obs.add("bytes_ops_decoded", d.ops.len() as u64);
-        if !check_framing(&bytes, &d, obs, &ctx) {
-            return;
-        }
-        // Display of the documented errors must work too
-        if let Err(e) = &d.end {
-            if let Err(p) = catch(|| format!("{e}")) {
-                obs.repo_panic(&p, json!({"what": "Display of InvalidDviData panicked"}));
-            }
-        }
-        // whatever the reader returned is a sequence of operations: it must round-trip, provided
-        // its strings are inside the quantifier (lossy UTF-8 decoding can grow them past 255 bytes)
-        if !d.ops.is_empty() {
-            if strings_fit(&d.ops) {
-                let r = check_round_trip(&d.ops, obs, &ctx);
-                if r.ok {
-                    obs.count("bytes_decoded_ops_round_tripped_again");
-                }
-            } else {
-                obs.skip("decoded-string-longer-than-255-bytes");
-            }
-        }
-        if !d.ops.is_empty() || d.end.is_err() {
-            obs.nontrivial(&bytes);
-        }
-        if obs.wants_sample() {
-            obs.sample(json!({"how": how, "bytes": show_bytes(&bytes), "decoded": show_ops(&d.ops[..d.ops.len().min(12)]),
-                              "n_decoded": d.ops.len(), "end": format!("{:?}", d.end), "unconsumed": d.residual}));
-        }
+        check_bytes(&bytes, how, obs);
     }
 
     fn case_known(&self, idx: u64, obs: &mut Obs) {
